@@ -84,13 +84,14 @@ func (prop) Run(t *testing.T, s *sim.Sim, res *runner.Result) {
 	w.proc = s.NewProc("pkg")
 	w.reg = simreg.New(s, w.proc)
 	tp := s.Tape
-	w.tags = []string{"v1", "v2", "v3"}
+	// (v10: a tag that has another tag as a string prefix)
+	w.tags = []string{"v1", "v2", "v3", "v10"}
 	w.tagHistory = map[string][]string{}
 	for _, tg := range w.tags {
 		w.reg.TagMap[repo+":"+tg] = simreg.DigestFor(tg)
 		w.tagHistory[repo+":"+tg] = []string{simreg.DigestFor(tg)}
 	}
-	w.nDigest = 3
+	w.nDigest = 4
 	nPkg := 1 + tp.Next(2)
 	chaos := 40 + tp.Next(200)
 	kit.DrawFaults(s, []sim.Outcome{sim.ErrBefore, sim.ErrAfter, sim.Conflict, sim.CrashBefore, sim.CrashAfter})
@@ -105,7 +106,8 @@ func (prop) Run(t *testing.T, s *sim.Sim, res *runner.Result) {
 		}
 		w.pkgs = append(w.pkgs, p.Name)
 	}
-	res.Workload = map[string]any{"packages": nPkg, "chaos_steps": chaos}
+	recreate := tp.Next(3) == 0
+	res.Workload = map[string]any{"packages": nPkg, "chaos_steps": chaos, "packages_recreated": recreate}
 	w.newProcess()
 	w.Store.OnLog = append(w.Store.OnLog, w.onLog)
 
@@ -122,6 +124,19 @@ func (prop) Run(t *testing.T, s *sim.Sim, res *runner.Result) {
 		}
 		acts = append(acts, sim.Action{Key: "registry moves a tag", Weight: 2, Run: func() { w.moveTag(tp) }})
 		acts = append(acts, sim.Action{Key: "advance 1s", Weight: 1, Run: func() { s.Advance(time.Second) }})
+		if recreate {
+			// a package is deleted and created again under its name (a new object, a
+			// new UID) while the revisions of the previous one are still there; the
+			// Kubernetes garbage collector removes them one by one, some time later
+			for _, n := range w.pkgs {
+				n := n
+				acts = append(acts, sim.Action{Key: "user deletes package " + n + " and creates it again", Weight: 1, Run: func() { w.recreatePackage(n, tp) }})
+			}
+			for _, k := range w.Store.GCCandidates() {
+				k := k
+				acts = append(acts, sim.Action{Key: "k8s-gc " + k.String(), Weight: 2, Run: func() { w.Store.GCStep(k) }})
+			}
+		}
 		if !s.StepOnce(acts, 30) {
 			break
 		}
@@ -204,6 +219,23 @@ func (w *world) editPackage(name string, tp *sim.Tape) {
 		w.applyPolicy(p, tp)
 	}
 	_ = w.direct.Update(ctx, p)
+}
+
+func (w *world) recreatePackage(name string, tp *sim.Tape) {
+	ctx := context.Background()
+	p := &pkgv1.Provider{}
+	if err := w.direct.Get(ctx, types.NamespacedName{Name: name}, p); err != nil {
+		return
+	}
+	if err := w.direct.Delete(ctx, p); err != nil {
+		return
+	}
+	n := &pkgv1.Provider{ObjectMeta: metav1.ObjectMeta{Name: name}}
+	n.Spec.Package = repo + ":" + w.tags[tp.Next(len(w.tags))]
+	w.applyPolicy(n, tp)
+	if w.direct.Create(ctx, n) == nil {
+		w.S.Probe("package-created-again-under-its-name")
+	}
 }
 
 func (w *world) moveTag(tp *sim.Tape) {
@@ -298,6 +330,22 @@ func (w *world) onLog(e *simapi.LogEntry) {
 		return
 	}
 	revs := w.revisionsOfAt(e.Seq, pkg) // state right before this delete took effect
+	// ... or rather what this reconcile itself listed: the Kubernetes garbage
+	// collector may have removed a revision of a previous incarnation of the
+	// package since
+	for i := e.Seq - 1; i >= 0; i-- {
+		l := w.Store.Log[i]
+		if l.TaskID == e.TaskID && l.Read && l.Verb == "list" && l.Key.Kind == revGVK.Kind && l.Err == nil && l.Injected == "" {
+			revs = nil
+			for _, it := range l.Items {
+				u := &unstructured.Unstructured{Object: it}
+				if u.GetLabels()[pkgv1.LabelParentPackage] == pkg {
+					revs = append(revs, u)
+				}
+			}
+			break
+		}
+	}
 	// The reconcile acted on the package as it read it some time after it
 	// started: the delete is justified if ANY version the package had since
 	// then allows it (a user may have edited the limit in the meantime).
